@@ -4,11 +4,11 @@
 (* interpreter saw it: its commands (lines and direct statements as the      *)
 (* interpreter's own parser understood them, replies, interrupts), for each  *)
 (* direct command the opcodes its compiler and linker produced, and for each *)
-(* command (pc, stack depth, run state) after every single execute(1) until  *)
-(* the interpreter waited again, with the step at which an interrupt was     *)
-(* delivered.  The model is walked through the same commands, the same       *)
-(* number of steps, the same interrupts; the harness compares opcode by      *)
-(* opcode and step by step.                                                  *)
+(* command (pc, stack depth, run state, print column, DATA pointer, number   *)
+(* of stored variables) after every single execute(1) until the interpreter  *)
+(* waited again, with the step at which an interrupt was delivered.  The     *)
+(* model is walked through the same commands, the same number of steps, the  *)
+(* same interrupts; the harness compares opcode by opcode and step by step.  *)
 (***************************************************************************)
 EXTENDS BasicVM, Json, IOUtils
 
@@ -22,7 +22,7 @@ RunI(v, n, intat, j, acc) ==
   IF j = n \/ v.wait # "" THEN [v |-> v, tr |-> acc]
   ELSE LET v0 == IF j = intat THEN VInterrupt(v) ELSE v
            w == VExecute(v0) IN
-       RunI(w, n, intat, j + 1, Append(acc, <<w.pc, Len(w.stk), w.st>>))
+       RunI(w, n, intat, j + 1, Append(acc, <<w.pc, Len(w.stk), w.st, w.col, w.dpos, Cardinality(DOMAIN w.vars)>>))
 
 CanCompile(c) == c.k \notin {"line", "direct"} \/ Compilable(c.stmts)
 
